@@ -382,6 +382,10 @@ func runC18(tier string, seed int64, si, sn int, rep *monitor.Report, note func(
 		// a ready-timeout of zero or less (what an unparsable or "0s" option amounts to): timed out at once, everything terminated
 		points = append(points, fp{kind: "never-ready:zero-timeout", timeout: 0}, fp{kind: "never-ready:negative-timeout", timeout: -30 * time.Second})
 		points = append(points, fp{kind: "never-ready+terminate-fails", timeout: 2500 * time.Millisecond, termFail: 1})
+		// the fleet answers with errors and with some, but not all, of the instances asked for: nothing fails afterwards
+		if n > 1 {
+			points = append(points, fp{kind: "short-answer-with-errors", timeout: 30 * time.Second})
+		}
 		for k := 1; k <= batches; k++ {
 			points = append(points, fp{kind: "attach-fails", attachK: k, timeout: 30 * time.Second})
 		}
@@ -407,6 +411,9 @@ func runC18(tier string, seed int64, si, sn int, rep *monitor.Report, note func(
 			fx.C.Fleet = sim.FleetScript{Groups: 1 + int(n%3), ReadyAfter: time.Second, PageSize: 100}
 			if strings.HasPrefix(pt.kind, "never-ready") {
 				fx.C.Fleet.ReadyAfter = -1
+			}
+			if pt.kind == "short-answer-with-errors" {
+				fx.C.Fleet.WithErrors, fx.C.Fleet.Short = true, 1+n/3
 			}
 			from := len(fx.J.Events)
 			// failures are injected by call ordinal of the API concerned
@@ -436,7 +443,7 @@ func runC18(tier string, seed int64, si, sn int, rep *monitor.Report, note func(
 				}
 				continue
 			}
-			if err == nil {
+			if err == nil && pt.kind != "short-answer-with-errors" {
 				rep.Violate(P, "failure-not-reported", "%s: IncreaseSize returned nil although capacity did not arrive", desc)
 			}
 			var acquired []string
